@@ -250,7 +250,15 @@ func (g *Gen) def(d *schema.Def, budget int) Value {
 		}
 		b := d.Branches[ok[r.Intn(len(ok))]]
 		body := g.def(b.Def, budget-1)
-		return Value{Disc: b.Disc, Body: &body}
+		out := Value{Disc: b.Disc, Body: &body}
+		if len(ok) > 1 && r.Chance(1, 8) {
+			// a Go value may have several members set: only one goes on the wire
+			b2 := d.Branches[ok[r.Intn(len(ok))]]
+			if b2.Disc != b.Disc {
+				out.Also = append(out.Also, MsgField{Index: b2.Disc, V: g.def(b2.Def, budget-1)})
+			}
+		}
+		return out
 	}
 	return Value{}
 }
